@@ -240,8 +240,13 @@ fn explore(cx: &mut Ctx, board: &mut chess::board::Board, stack: &mut Vec<(Pos, 
 
 /// End to end through the Game API: all menu-move sequences of length `len`; whenever a position
 /// has occurred three times (model), `check_game_over_for_current_turn` must say Draw.
-fn game_api(seed: &RSeed, allowed: &[Sq], len: u32, sink: &Sink) -> (u64, u64, u64) {
-    let root = Pos::from_fen(seed.fen).unwrap();
+fn game_api(seed: &RSeed, allowed: &[Sq], len: u32, sink: &Sink, odd_counter: bool) -> (u64, u64, u64) {
+    let mut root = Pos::from_fen(seed.fen).unwrap();
+    if odd_counter {
+        // a hand-built board whose move counter was never set to match the side to move: which
+        // side is to move is the board's `turn`, whatever the counter's parity
+        root.ply += 1;
+    }
     let mut games = 0u64;
     let mut third = 0u64;
     let mut reported = 0u64;
@@ -487,7 +492,11 @@ pub fn run(a: &Args) -> i32 {
         rep.add("recurrences_of_placement_only_(other_side_rights_or_ep)", cx.placement_only_recurrences);
         // the irreversible-move seeds need one ply more (the pawn step / capture itself)
         let glen = if thorough { 10 } else if matches!(seed.name, "single-pawn-step" | "capture") { 9 } else { 8 };
-        let (games, third, reported) = game_api(seed, &allowed, glen, &sink);
+        let (mut games, mut third, mut reported) = game_api(seed, &allowed, glen, &sink, false);
+        let (g2, t2, r2) = game_api(seed, &allowed, glen, &sink, true);
+        games += g2;
+        third += t2;
+        reported += r2;
         rep.add("game_api_games_with_a_third_occurrence", games);
         rep.add("game_api_third_occurrences_checked", third);
         rep.add("game_api_draws_reported", reported);
@@ -549,7 +558,8 @@ pub fn replay(v: &serde_json::Value) -> i32 {
     for _ in 0..2 {
         let sink = Sink::new(1000);
         if v["extra"]["kind"].as_str() == Some("c17-game") {
-            game_api(seed, &allowed, n.max(4), &sink);
+            game_api(seed, &allowed, n.max(4), &sink, false);
+            game_api(seed, &allowed, n.max(4), &sink, true);
         } else {
             let mut cx = Ctx { seed, allowed: allowed.clone(), sink: &sink, ops: 0, histories: 0, recurrences: 0, threefold: 0, placement_only_recurrences: 0, g: MoveGenerator::new(), max_mult: 0, c05: false, key_checks: 0 };
             let mut board = build_board(&root);
